@@ -47,6 +47,14 @@ Decide(d, t, st, res, ctx) ==
      IN [dst |-> es[i].dst, key |-> es[i].key, ti |-> es[i].ti, pub |-> es[i].pub, c |-> c,
          pubok |-> p.ok, new |-> p.new, sat |-> c = "T" /\ p.ok]]
 
+(* the context entries one completion appends: one per satisfied (transition, target) pair as the code does  *)
+(* it, or one per satisfied transition shared by its targets (the intended design) - the properties do not  *)
+(* prescribe the number of copies, only what every target sees                                              *)
+NonEmpty(f) == DOMAIN f # {}
+PubPerEdge(dx) == SelectSeq([i \in 1..Len(dx) |-> IF dx[i].sat THEN dx[i].new ELSE << >>], NonEmpty)
+PubPerTransition(dx) ==
+  SelectSeq([i \in 1..Len(dx) |-> IF dx[i].sat /\ ~(\E j \in 1..(i - 1) : dx[j].sat /\ dx[j].ti = dx[i].ti)
+                                   THEN dx[i].new ELSE << >>], NonEmpty)
 SatTargets(dec) == {dec[i].dst : i \in {j \in 1..Len(dec) : dec[j].sat}}
 ExprTrouble(dec) == \E i \in 1..Len(dec) : dec[i].c = "E" \/ ~dec[i].pubok
 
@@ -423,9 +431,7 @@ C06_published(d, h1, prev, step) ==
   (h1.compl # << >> /\ ~h1.rerun) =>
      LET cm  == h1.compl[1]
          dx  == Decide(d, cm.t, cm.st, cm.res, Proj(cm.xc))
-         exp == SelectSeq([i \in 1..Len(dx) |-> IF dx[i].sat THEN dx[i].new ELSE << >>],
-                          LAMBDA f : DOMAIN f # {})
-     IN SubSeq(step.obs.ctxs, Len(prev.ctxs) + 1, Len(step.obs.ctxs)) = exp
+     IN SubSeq(step.obs.ctxs, Len(prev.ctxs) + 1, Len(step.obs.ctxs)) \in {PubPerEdge(dx), PubPerTransition(dx)}
 (* output: for variables whose bindings over the terminal contexts are totally ordered *)
 PidsOf(b) == {hv[1] : hv \in b.hist}
 OrderedB(a, b) == a.pid = b.pid \/ a.pid \in PidsOf(b) \/ b.pid \in PidsOf(a)
@@ -681,9 +687,7 @@ C18_seen_fixed(d, h1, prev, step) ==
      LET cm  == h1.compl[1]
          rec == Rec(step.obs, cm.t, cm.r)
          dx  == Decide(d, cm.t, cm.st, cm.res, CtxOf(step.obs, rec.ctxin))
-         exp == SelectSeq([i \in 1..Len(dx) |-> IF dx[i].sat THEN dx[i].new ELSE << >>],
-                          LAMBDA f : DOMAIN f # {})
-     IN SubSeq(step.obs.ctxs, Len(prev.ctxs) + 1, Len(step.obs.ctxs)) = exp
+     IN SubSeq(step.obs.ctxs, Len(prev.ctxs) + 1, Len(step.obs.ctxs)) \in {PubPerEdge(dx), PubPerTransition(dx)}
 
 (* C19 (purity half): asking for next tasks twice gives the same answer and state. *)
 C19_idem(step) == (step.call.op = "query" /\ step.ret = "ok") =>
